@@ -240,7 +240,7 @@ def run(ctx):
     exe = ctx.harness("ht_replay", ["harness/hashtable/ht_replay.c"])
     # quick: "migrate" is model-checked (with the coverage guard) but not replayed, its behaviours are close to "unlink"
     scen = [SCENARIOS[0], SCENARIOS[2]] if ctx.quick else SCENARIOS
-    nrandom = 150 if ctx.quick else 3000
+    nrandom = 150 if ctx.quick else 500
     executions = []
     t0 = [time.time()]
 
@@ -326,7 +326,7 @@ def run(ctx):
         scf = os.path.join(ctx.scratch, sc["name"] + ".scn")
         tr = os.path.join(ctx.scratch, sc["name"] + ".rtrace")
         meta = os.path.join(ctx.scratch, sc["name"] + ".rmeta")
-        exs, metas = run_harness(ctx, exe, ["random", scf, str(1500 if ctx.quick else 40000), tr, meta, str(ctx.seed)], tr, meta)
+        exs, metas = run_harness(ctx, exe, ["random", scf, str(1500 if ctx.quick else 4000), tr, meta, str(ctx.seed)], tr, meta)
         for e in exs:
             executions.append((sc["name"], "random", e))
     ctx.exhaustive = all_exh
@@ -340,7 +340,7 @@ def run(ctx):
         scenario_file(sc, scf)
         tr = os.path.join(ctx.scratch, "stress%d.trace" % i)
         meta = os.path.join(ctx.scratch, "stress%d.meta" % i)
-        exs, metas = run_harness(ctx, exe, ["stress", scf, str(60 if ctx.quick else 1500), tr, meta], tr, meta, timeout=600)
+        exs, metas = run_harness(ctx, exe, ["stress", scf, str(60 if ctx.quick else 250), tr, meta], tr, meta, timeout=600)
         nstress += len(exs)
         if i == 0:
             ctx.sample({"stress_scenario": sc})
